@@ -496,31 +496,41 @@ Fixpoint cseq (cc : cstate -> cword -> bool * cstate) (s0 : cstate) (ws : list c
 Definition clines (cc : cstate -> cword -> bool * cstate) (s0 : cstate) (ws : list cword) : cstate :=
   fold_left (fun s1 x => snd (cc s1 x)) ws s0.
 
-(** [fixed_fill = true]: the code as it stands.  [false]: the fill arm with the `?` before the
-    restore (the shape of the seeded defect), kept to show that the invariant below can fail. *)
-Fixpoint ccompile (fixed_fill : bool) (fuel : nat) (s : cstate) (w : cword) {struct fuel} : bool * cstate :=
+(** [fixed_fill = true], [fixed_macro = true]: the code as it stands.
+    [fixed_fill = false]: the fill arm with the `?` before the restore (the shape of a seeded defect),
+    kept to show that the invariant can fail.
+    [fixed_macro = false]: RECORD of the code before fix 501199d - the depth check of the macro
+    expansion, the `?` on the expansion and the depth check of `quote` returned before
+    comptime_depth (and, in quote, pre_eval_mode) were restored. *)
+Fixpoint ccompile (fixed_fill fixed_macro : bool) (fuel : nat) (s : cstate) (w : cword) {struct fuel} : bool * cstate :=
   match fuel with O => (false, s) | S k =>
+  let cc := ccompile fixed_fill fixed_macro k in
   match w with
   | WLeaf ok => (ok, s)
-  | WSeq ws => cseq (ccompile fixed_fill k) s ws
-  | WParen ws => (true, clines (ccompile fixed_fill k) s ws)
+  | WSeq ws => cseq cc s ws
+  | WParen ws => (true, clines cc s ws)
   | WFill f fw =>
-      let (ok, s2) := ccompile fixed_fill k (set_fill s Lsp true) f in
+      let (ok, s2) := cc (set_fill s Lsp true) f in
       if negb ok && negb fixed_fill then (false, s2) else
       let s3 := set_fill s2 (cs_mode s) (cs_in_fill s) in
-      if ok then ccompile fixed_fill k s3 fw else (false, s3)
+      if ok then cc s3 fw else (false, s3)
   | WTry bs =>
-      let (ok, s2) := cseq (ccompile fixed_fill k) (set_try s true) bs in
+      let (ok, s2) := cseq cc (set_try s true) bs in
       (ok, set_try s2 (cs_in_try s))
   | WCodeMacro pok body =>
+      (* modifier.rs:1767: comptime_depth += 1; res = modifier_ref_expand(..); comptime_depth -= 1; res *)
       let s1 := set_depth s (S (cs_depth s)) in
-      if MAX_COMPTIME_DEPTH <? cs_depth s1 then (false, s1) else
-      if negb pok then (false, s1) else
-      let s2 := set_depth (set_mode s1 (mode_min_line (cs_mode s1))) (S (cs_depth s1)) in
-      if MAX_COMPTIME_DEPTH <? cs_depth s2 then (false, s2) else
-      let s3 := snd (ccompile fixed_fill k s2 body) in
-      let s4 := set_mode (set_depth s3 (pred (cs_depth s3))) (cs_mode s1) in
-      (true, set_depth s4 (pred (cs_depth s4)))
+      let res : bool * cstate :=
+        if MAX_COMPTIME_DEPTH <? cs_depth s1 then (false, s1) else
+        if negb pok then (false, s1) else              (* quote: the parse error returns first *)
+        let s2 := set_depth (set_mode s1 (mode_min_line (cs_mode s1))) (S (cs_depth s1)) in
+        if MAX_COMPTIME_DEPTH <? cs_depth s2
+        then (false, if fixed_macro then s1 else s2)   (* quote's depth check: restores both since 501199d *)
+        else
+          let s3 := snd (cc s2 body) in
+          (true, set_mode (set_depth s3 (pred (cs_depth s3))) (cs_mode s1)) in
+      if fixed_macro then (fst res, set_depth (snd res) (pred (cs_depth (snd res))))
+      else if fst res then (true, set_depth (snd res) (pred (cs_depth (snd res)))) else res
   end end.
 
 Fixpoint no_macro (w : cword) : bool :=
@@ -537,7 +547,7 @@ Definition cstate_eqb (a b : cstate) : bool :=
 (** correspondence: (state before, abstraction of the snippet, state observed after) *)
 Fixpoint failing_states (i : N) (l : list (cstate * cword * cstate)) : list N :=
   match l with [] => [] | (b, w, a) :: t =>
-    if cstate_eqb (snd (ccompile true 200 b w)) a then failing_states (i + 1)%N t
+    if cstate_eqb (snd (ccompile true true 200 b w)) a then failing_states (i + 1)%N t
     else i :: failing_states (i + 1)%N t end.
 Fixpoint nest_macro (n : nat) (w : cword) : cword :=
   match n with O => w | S k => WCodeMacro true (nest_macro k w) end.
@@ -552,9 +562,15 @@ Section PreCache.
   Variable eval : nat -> key -> val * list event.
   Fixpoint clookup (k : key) (c : list (key * val)) : option val :=
     match c with [] => None | (k', v) :: t => if keyb k k' then Some v else clookup k t end.
-  (** one comptime_node call by a compiler whose backend is [b]: value, calls made on [b], new cache *)
-  Definition comptime_cached (c : list (key * val)) (b : nat) (k : key) : val * list event * list (key * val) :=
+  (** RECORD (before fix 49da69f): every result was cached and served, whatever the node.
+      One comptime_node call by a compiler whose backend is [b]: value, calls made on [b], new cache *)
+  Definition comptime_cached_pre (c : list (key * val)) (b : nat) (k : key) : val * list event * list (key * val) :=
     match clookup k c with
     | Some v => (v, [], c)
     | None => let (v, t) := eval b k in (v, t, (k, v) :: c) end.
+  (** the code as it stands (pre_eval.rs:161-200): only a node that is_pure is looked up and stored *)
+  Variable cacheable : key -> bool.      (* node.is_pure(&self.asm) *)
+  Definition comptime_cached (c : list (key * val)) (b : nat) (k : key) : val * list event * list (key * val) :=
+    if cacheable k then comptime_cached_pre c b k
+    else let (v, t) := eval b k in (v, t, c).
 End PreCache.
